@@ -66,7 +66,7 @@ static bool run_one(Run &R, const Bytes &b) { auto f = check_one(R, b); return !
 static void stage_bounded(Run &R) {
     static const char AL[] = {'a', '1', '-', '.', '_', '!'};
     const int K = sizeof AL;
-    int maxlen = R.a.thorough ? 9 : 7;
+    int maxlen = R.a.thorough ? 10 : 7;
     uint64_t total = 0, idx = 0;
     std::vector<int> d(maxlen, 0);
     for (int len = 1; len <= maxlen; len++) {
@@ -95,7 +95,8 @@ static void stage_lengths(Run &R) {
     uint64_t total = 0, idx = 0;
     auto go = [&](const Bytes &b) -> bool { total++; if ((int) (idx++ % R.a.nworkers) != R.a.worker) return true; return run_one(R, b); };
     // every label length 0..70 in first / middle / last position and alone
-    for (size_t n = 0; n <= 70; n++) for (int style = 0; style < 3; style++) {
+    for (size_t n = 0; n <= 300; n++) for (int style = 0; style < 3; style++) {
+        if (n > 70 && style == 1 && n % 3) continue;
         Bytes L = mklabel(n, style);
         for (const Bytes &d : {L + ".b.com", "b." + L + ".com", "b.c." + L, L, L + ".", "b." + L + ".", L + "-.com", "-" + L + ".com", "b." + L + "-", "b.-" + L})
             if (!go(d)) return;
@@ -124,7 +125,7 @@ static void stage_lengths(Run &R) {
     // all-numeric shapes
     for (const char *s : {"1", "12", "1.2", "1.2.3.4", "1.2.3.4.", "123.456", "1a.2", "1-2", "1.2-3", "0", "1.a", "a.1", "1_2", "4294967296", "1..2", "127.0.0.1", "1.2.3.com", "1.2.3.4.com"})
         if (!go(s)) return;
-    R.space("C04 label lengths 0..70 x 3 fillings x 10 positions; total lengths 240..260 x 4 layouts x 4 dot variants; bytes 0x01..0xFF x 9 positions; numeric shapes", total);
+    R.space("C04 label lengths 0..300 x 3 fillings x 10 positions; total lengths 240..260 x 4 layouts x 4 dot variants; bytes 0x01..0xFF x 9 positions; numeric shapes", total);
 }
 
 static void stage_random(Run &R) {
